@@ -822,7 +822,8 @@ func (t *typing) primitive(s *tstate, name string, args []aval, path string) (av
 		if len(s.loops) > 0 {
 			m := s.loops[len(s.loops)-1]
 			for _, b := range s.brk[m>>16:] {
-				t.joinSnap(&s.sn, b.e.sn, path, "BreakSet")
+				// one obligation per class of break source (open blocks / templates at the break)
+				t.joinSnap(&s.sn, b.e.sn, path, fmt.Sprintf("BreakSet:B%d,F%d", b.e.sn.B, b.e.sn.F))
 			}
 		}
 		return aval{}, true
@@ -842,7 +843,7 @@ func (t *typing) primitive(s *tstate, name string, args []aval, path string) (av
 			m := s.loops[len(s.loops)-1]
 			for _, c := range s.cont[m&0xffff:] {
 				cur := tgt.sn
-				t.joinSnap(&cur, c.e.sn, path, "ContinueSet")
+				t.joinSnap(&cur, c.e.sn, path, fmt.Sprintf("ContinueSet:B%d,F%d", c.e.sn.B, c.e.sn.F))
 			}
 		}
 		return aval{}, true
